@@ -34,7 +34,7 @@ man = {
     "hooks": {
         "guard": "go build -overlay (files ADDED at build time from /verif/mc/overlay; no tagged sources are committed to /repo)",
         "enable": "check.sh generates overlay.json (export shims zz_verif_export.go, bridge packages verifbridge/*, std shims crypto/mldsaref + crypto/verifrand, C18: instrumented copies of /repo's current sources) and builds with `go1.26 build -overlay`",
-        "baseline_off_cmd": "cd /repo && go test -mod=mod -vet=off -count=1 -timeout 25m ./...",
+        "baseline_off_cmd": 'for m in $(cat /w/out/gomods.txt); do MF=$(cd /repo/$m && . /w/out/goenv.sh && gomodflag); (cd /repo/$m && go test $MF -json -vet=off -count=1 -timeout 25m ./...); done',
         "source_commits": [],
         "add_only": True,
     },
